@@ -1,3 +1,9 @@
 ; Spec prelude: axioms about uninterpreted mathematical functions.
 ; Each block starts with "; needs: f g ..." and is included in a query only if
 ; all listed function symbols occur in that query.
+
+; needs: at
+(assert (forall ((o Int) (k Int)) (! (= (at o k) (+ o k)) :pattern ((at o k)))))
+
+; needs: rmul
+(assert (forall ((x Real) (y Real)) (! (= (rmul x y) (rmul y x)) :pattern ((rmul x y)))))
